@@ -6,7 +6,7 @@ import Mrm.Proofs.ViewsFrom
 
 namespace Mrm
 
-/-- a numeric payload field: absent, or its value in eighths -/
+/-- a numeric payload field: absent, or its value in microseconds -/
 def fieldVal (p : Xml) (tag : String) : Except PyExc (Option Nat) :=
   match p.find tag with
   | none => .ok none
